@@ -259,10 +259,10 @@ class SFNTWriter(object):
             + self.directorySize
             + numTables * self.DirectoryEntry.formatSize
         )
-        # clear out directory area
-        self.file.seek(self.nextTableOffset)
-        # make sure we're actually where we want to be. (old cStringIO bug)
-        self.file.write(b"\0" * (self.nextTableOffset - self.file.tell()))
+        # clear out directory area (write it, so that the stream really extends to the
+        # first table offset even if no table data follows)
+        self.file.seek(self.directoryOffset)
+        self.file.write(b"\0" * (self.nextTableOffset - self.directoryOffset))
         self.tables = OrderedDict()
 
     def setEntry(self, tag, entry):
